@@ -105,3 +105,25 @@ fn c_dyn_auto(deps: &(dyn core::fmt::Debug + Send + Sync), a: i32) -> i32 {
 async fn c_dyn_async(deps: &(dyn core::fmt::Debug + Send + Sync), a: i32) -> i32 {
     a
 }
+
+// explicit lifetimes on a concrete-deps reference, a relation between them declared in a WHERE clause,
+// and a return borrowed from the deps
+#[entrait(CLtWhere)]
+fn c_lt_where<'a, 'b>(deps: &'a CfgLt, fallback: &'b str) -> &'a str
+where
+    'b: 'a,
+{
+    if deps.0.is_empty() {
+        fallback
+    } else {
+        deps.0
+    }
+}
+pub struct CfgLt(pub &'static str);
+#[entrait(CLtWhereAsync)]
+async fn c_lt_where_async<'a, 'b>(deps: &'a CfgLt, fallback: &'b str) -> &'a str
+where
+    'b: 'a,
+{
+    fallback
+}
